@@ -86,6 +86,44 @@ def systematic(rng, tier):
 				for kind, head in (('server', b'POST / HTTP/1.1\r\nHost: h\r\n'), ('client', b'HTTP/1.1 200 OK\r\n')):
 					s = head + b'Content-Encoding: ' + coding + b'\r\n' + (b'Content-Type: ' + ct + b'\r\n' if ct else b'') + b'Content-Length: %d\r\n\r\n' % len(body) + body
 					out.append({'k': 'hostile', 'kind': kind, 's': s.hex(), 'cuts': [[]]})
+	# format-string metacharacters at every place whose octets end up inside an error message (messages are built with % and passed on
+	# through several exception layers: an input '%' must never be interpreted a second time)
+	toks = [b'%', b'%s', b'%d', b'%r', b'%(a)s', b'%41', b'%%', b'%c', b'%*d', b'{}', b'{0}', b'{a}', b'%s%s%s', b'\\', b'%\xff']
+	for t in toks:
+		tmpl = [
+			('server', b'G<T / HTTP/1.1\r\nHost: h\r\n\r\n'.replace(b'<', t)),
+			('server', b'GET / HTTP/1.@\r\nHost: h\r\n\r\n'.replace(b'@', t)),
+			('server', b'GET / @ HTTP/1.1\r\nHost: h\r\n\r\n'.replace(b'@', t)),
+			('server', b'GET /a b@ HTTP/1.1 x\r\nHost: h\r\n\r\n'.replace(b'@', t)),
+			('server', b'GET http://h@:x/ HTTP/1.1\r\nHost: h\r\n\r\n'.replace(b'@', t)),
+			('server', b'GET / HTTP/1.1\r\nHost: h\r\nBad@Line\r\n\r\n'.replace(b'@', t)),
+			('server', b'GET / HTTP/1.1\r\nHost: h\r\nBad @: v\r\n\r\n'.replace(b'@', t)),
+			('server', b'GET / HTTP/1.1\r\nHost: a@b c\r\n\r\n'.replace(b'@', t)),
+			('server', b'GET / HTTP/1.1\r\nHost: =?utf-8?q?=FF@?=\r\n\r\n'.replace(b'@', t)),
+			('server', b'GET / HTTP/1.1\r\nHost: =?utf-8?b?/w@?=\r\n\r\n'.replace(b'@', t)),
+			('server', b'POST / HTTP/1.1\r\nHost: h\r\nContent-Length: 1@\r\n\r\nab'.replace(b'@', t)),
+			('server', b'POST / HTTP/1.1\r\nHost: h\r\nContent-Length: =?utf-8?q?=FF@?=\r\n\r\nab'.replace(b'@', t)),
+			('server', b'POST / HTTP/1.1\r\nHost: h\r\nTransfer-Encoding: x@\r\n\r\nab'.replace(b'@', t)),
+			('server', b'POST / HTTP/1.1\r\nHost: h\r\nTransfer-Encoding: =?utf-8?q?=FF@?=\r\n\r\nab'.replace(b'@', t)),
+			('server', b'POST / HTTP/1.1\r\nHost: h\r\nContent-Encoding: x@\r\nContent-Length: 2\r\n\r\nab'.replace(b'@', t)),
+			('server', b'POST / HTTP/1.1\r\nHost: h\r\nContent-Type: a@\r\nContent-Length: 2\r\n\r\nab'.replace(b'@', t)),
+			('server', b'POST / HTTP/1.1\r\nHost: h\r\nContent-Type: =?utf-8?q?=FF@?=\r\nContent-Length: 2\r\n\r\nab'.replace(b'@', t)),
+			('server', b'POST / HTTP/1.1\r\nHost: h\r\nContent-Type: a/b; n*=utf-8\'\'%ff@\r\nContent-Length: 2\r\n\r\nab'.replace(b'@', t)),
+			('server', b'POST / HTTP/1.1\r\nHost: h\r\nConnection: =?utf-8?q?=FF@?=\r\nContent-Length: 2\r\n\r\nab'.replace(b'@', t)),
+			('server', b'POST / HTTP/1.1\r\nHost: h\r\nTransfer-Encoding: chunked\r\n\r\nz@\r\nab\r\n0\r\n\r\n'.replace(b'@', t)),
+			('server', b'POST / HTTP/1.1\r\nHost: h\r\nTransfer-Encoding: chunked\r\n\r\n2\r\nab@\r\n0\r\n\r\n'.replace(b'@', t)),
+			('server', b'POST / HTTP/1.1\r\nHost: h\r\nTransfer-Encoding: chunked\r\n\r\n2\r\nab\r\n0\r\nBad@Trailer\r\n\r\n'.replace(b'@', t)),
+			('server', b'POST / HTTP/1.1\r\nHost: h\r\nTransfer-Encoding: chunked\r\nTrailer: =?utf-8?q?=FF@?=\r\n\r\n2\r\nab\r\n0\r\nX: y\r\n\r\n'.replace(b'@', t)),
+			('server', b'POST / HTTP/1.1\r\nHost: h\r\nTransfer-Encoding: chunked\r\nTrailer: X\r\n\r\n2\r\nab\r\n0\r\nY@: untold\r\n\r\n'.replace(b'@', t)),
+			('client', b'HTTP/1.@ 200 OK\r\n\r\n'.replace(b'@', t)),
+			('client', b'HTTP/1.1 2@0 OK\r\n\r\n'.replace(b'@', t)),
+			('client', b'HTTP/1.1 200 O\x01@K\r\n\r\n'.replace(b'@', t)),
+			('client', b'HTTP/1.1 200 OK\r\nContent-Length: =?utf-8?q?=FF@?=\r\n\r\n'.replace(b'@', t)),
+			('client', b'HTTP/1.1 200 OK\r\nTransfer-Encoding: =?x?q?@?=\r\n\r\n'.replace(b'@', t)),
+			('client', b'HTTP/1.1 200 OK\r\nBad@Line\r\n\r\n'.replace(b'@', t)),
+		]
+		for kind, st in tmpl:
+			out.append({'k': 'hostile', 'kind': kind, 's': st.hex(), 'cuts': [[]]})
 	# every charset name the code may accept (KNOWN_ENCODINGS as the tree has it now), every codec name Python knows
 	# (text or not: uu, hex, rot13, zlib ... are codecs that bytes.decode() refuses with LookupError), as the charset
 	# of an encoded word in a field the parser reads and of an RFC 5987 extended parameter
